@@ -108,6 +108,8 @@ def make_calls(root):
         __import__("in_toto.models.link", fromlist=["Link"]).Link(name="l", products={}), paths=["x", "sub/y"], lstrip_paths=["x", "sub/y"]))
     calls["match_products/base_setting"] = with_setting(lambda: rl.in_toto_match_products(
         __import__("in_toto.models.link", fromlist=["Link"]).Link(name="l", products={"x": {"sha256": "00"}}), paths=["."]))
+    calls["match_products/base_setting_no_such_dir"] = with_setting(lambda: rl.in_toto_match_products(
+        __import__("in_toto.models.link", fromlist=["Link"]).Link(name="l", products={}), paths=["dir:no-such-directory"]))
     calls["record_start/collision"] = lambda: rl.in_toto_record_start("st3", ["x", "sub/y"], base_path=base, signer=k.signer,
                                                                      lstrip_paths=["x", "sub/y"])
     calls["run/collision_products"] = lambda: rl.in_toto_run("st4", ["."], ["x", "sub/y"], [sys.executable, "-c", "pass"], base_path=base,
@@ -207,7 +209,7 @@ def run_once(name, root, fault_at=None):
     raised = None
     try:
         # shapes that set a setting do so inside the call wrapper: take the snapshot after a dry assignment
-        if name.split("/")[-1].startswith("base_setting"):
+        if name.split("/")[-1].startswith("base_setting"):      # (incl. base_setting_collision, base_setting_no_such_dir)
             st.ARTIFACT_BASE_PATH = os.path.join(root, "base")
         if name.endswith("exclude_setting_special"):
             st.ARTIFACT_EXCLUDE_PATTERNS = ["*.link*", ".git", "*~", "#*#", "!scratch", "\\#keep"]
@@ -401,7 +403,8 @@ SHAPES_QUICK = ["record/base_arg", "record/base_arg_two_paths", "record/no_base"
                 "record/ostree_missing_ref", "record/dir", "record/base_setting", "run/streams", "run/no_streams",
                 "run/failing_command", "run/no_such_command", "run/unwritable_metadata_dir", "record_start",
                 "record_start_stop", "record_stop/no_preliminary", "match_products", "record/exclude_setting_special",
-                "run/exclude_setting_special", "match_products/base_setting_collision", "match_products/base_setting"] + list(VERIFY_SHAPES)
+                "run/exclude_setting_special", "match_products/base_setting_collision", "match_products/base_setting",
+                "match_products/base_setting_no_such_dir"] + list(VERIFY_SHAPES)
 
 
 SHAPES_THOROUGH = SHAPES_QUICK + ["record/ostree_ok",
